@@ -76,8 +76,12 @@ fn new_sim(env: &Env, chain: &Chain, old: Option<Sim>) -> Sim {
     {
         let mut addrs = sim.c().out.peer_addrs.lock().unwrap();
         addrs.clear();
+        // a node that reconnects gets a new session index (p, p + 10, p + 20, ...) but keeps its
+        // address and peer id
         for (p, id) in [(1usize, "QmXS4Kbc9HEeykHUTJCm2tNmqghbvWyYpUp6BtE5b6VrAU"), (2, "QmUaSuEdXNGJEKvkE4rCn3cwBrpRFUm5TsouF4M3Sjursv")] {
-            addrs.push((PeerIndex::new(p), format!("/ip4/127.0.0.1/tcp/{}/p2p/{}", 8000 + p, id)));
+            for k in 0..6usize {
+                addrs.push((PeerIndex::new(p + 10 * k), format!("/ip4/127.0.0.1/tcp/{}/p2p/{}", 8000 + p, id)));
+            }
         }
     }
     let _ = sim.c().out.take_sent();
@@ -285,6 +289,9 @@ struct Track {
     gets: u32,
     connects: u32,
     sent_seen: usize,
+    /// how often each node (1, 2) opened the relay protocol so far: its current session index
+    /// is node + 10 * (sessions - 1)
+    sessions: BTreeMap<usize, usize>,
 }
 
 pub(crate) struct PoolModel<'a> {
@@ -296,6 +303,11 @@ pub(crate) struct PoolModel<'a> {
 }
 
 impl<'a> PoolModel<'a> {
+    fn session_of(&self, node: usize) -> usize {
+        let k = self.track.borrow().sessions.get(&node).copied().unwrap_or(1);
+        node + 10 * (k.max(1) - 1)
+    }
+
     fn index_of(&self, h: &packed::Byte32) -> Option<usize> {
         self.txs.iter().position(|t| &t.hash() == h)
     }
@@ -309,7 +321,8 @@ impl<'a> PoolModel<'a> {
         let mut announced_now: BTreeSet<(usize, usize)> = BTreeSet::new();
         let mut bodies: Vec<(usize, Vec<(usize, u64)>)> = vec![];
         for s in new {
-            let p = s.peer.value();
+            // (the node behind the session)
+            let p = s.peer.value() % 10;
             match packed::RelayMessage::from_compatible_slice(&s.data).map(|m| m.to_enum()) {
                 Ok(packed::RelayMessageUnion::RelayTransactionHashes(m)) => {
                     for h in m.tx_hashes().into_iter() {
@@ -455,8 +468,10 @@ impl<'a> Model for PoolModel<'a> {
                     t.connects += 1;
                     t.opened.insert(*p);
                     t.active.remove(p);
+                    *t.sessions.entry(*p).or_insert(0) += 1;
                 }
-                sim.cm().relay_connect(PeerIndex::new(*p));
+                let session = self.session_of(*p);
+                sim.cm().relay_connect(PeerIndex::new(session));
             }
             Ev::RelayDisconnect(p) => {
                 self.track.borrow_mut().opened.remove(p);
@@ -464,7 +479,8 @@ impl<'a> Model for PoolModel<'a> {
                 let nc = crate::verif::net::as_nc(&sim.c().ctx_r);
                 let c = sim.cm();
                 use ckb_network::CKBProtocolHandler;
-                c.rt.block_on(c.relay.disconnected(nc, PeerIndex::new(*p)));
+                let session = self.session_of(*p);
+                c.rt.block_on(c.relay.disconnected(nc, PeerIndex::new(session)));
             }
             Ev::RelayTick => {
                 self.track.borrow_mut().ticks += 1;
@@ -476,7 +492,8 @@ impl<'a> Model for PoolModel<'a> {
                 let msg = packed::RelayMessage::new_builder()
                     .set(packed::GetRelayTransactions::new_builder().tx_hashes(hashes.pack()).build())
                     .build();
-                sim.cm().recv_relay(PeerIndex::new(*p), msg.as_bytes());
+                let session = self.session_of(*p);
+                sim.cm().recv_relay(PeerIndex::new(session), msg.as_bytes());
             }
         }
         self.observe(sim, ev);
@@ -529,6 +546,9 @@ impl<'a> Model for PoolModel<'a> {
             hasher.update(&[*i as u8, *p as u8]);
         }
         hasher.update(&[t.submits as u8, t.invalids as u8, t.ticks as u8, t.gets as u8, t.connects as u8]);
+        for (n, k) in &t.sessions {
+            hasher.update(&[0xfb, *n as u8, *k as u8]);
+        }
         let mut out = [0u8; 32];
         hasher.finalize(&mut out);
         out
